@@ -342,6 +342,9 @@ func (e *vEnv) Now() time.Time { return vTime(e.clock) }
 func (e *vEnv) Reset(h uint32, v byte, d time.Duration) {
 	e.th, e.tv, e.td, e.armed = h, v, d, true
 	e.nTimerReset++
+	if e.want("C14") {
+		e.log = append(e.log, vEvent{kind: evTimerReset, h: h, v: v, d: d})
+	}
 	if e.want("C10") {
 		// durations are computed as timePerBlock << (view+1): claimed for views up to
 		// vMaxView+1 (the overflow needs centuries of exponential timeouts, DESIGN §4)
@@ -355,6 +358,9 @@ func (e *vEnv) Reset(h uint32, v byte, d time.Duration) {
 func (e *vEnv) Extend(d time.Duration) {
 	e.td += d
 	e.nTimerExtend++
+	if e.want("C14") {
+		e.log = append(e.log, vEvent{kind: evTimerExtend, d: d})
+	}
 	if e.want("C10") {
 		vAssert("C10.O2.extend.nonneg", d >= 0)
 	}
